@@ -6,6 +6,8 @@ import hashlib, json, os, re, shutil, signal, struct, subprocess, sys, time
 VERIF = os.path.dirname(os.path.dirname(os.path.abspath(__file__)))
 REPO = os.environ.get('VERIF_REPO', '/repo')
 BUILD = os.path.join(VERIF, 'build')
+# scratch runs (mutants, sweeps) can redirect what a check writes, so that the committed evidence stays that of /repo
+OUTDIR = os.environ.get('VERIF_OUTDIR', VERIF)
 NCPU = os.cpu_count() or 4
 GUARD = 'TULZ_VERIF'
 
@@ -559,17 +561,17 @@ def run_check(specs, engines, prop, tier, seed, keep=False, only_jobs=None):
         'jobs': len(jobs), 'cases_completed': cases,
     }
     ev.setdefault('evaluations', max(1, cases))
-    os.makedirs(os.path.join(VERIF, 'evidence'), exist_ok=True)
-    with open(os.path.join(VERIF, 'evidence', prop + '.json'), 'w') as f:
+    os.makedirs(os.path.join(OUTDIR, 'evidence'), exist_ok=True)
+    with open(os.path.join(OUTDIR, 'evidence', prop + '.json'), 'w') as f:
         json.dump(evidence, f, indent=1)
 
     # report
     rc = 0
-    os.makedirs(os.path.join(VERIF, 'replays'), exist_ok=True)
+    os.makedirs(os.path.join(OUTDIR, 'replays'), exist_ok=True)
     for (p, k), vs in new_keys:
         v = vs[0]
         name = '%s-%s.json' % (p, sha(k)[:10])
-        path = os.path.join(VERIF, 'replays', name)
+        path = os.path.join(OUTDIR, 'replays', name)
         with open(path, 'w') as f:
             json.dump({'property': p, 'key': k, 'occurrences': len(vs), 'check': prop, 'tier': tier,
                        'violation': v, 'replay': './vcheck replay ' + path}, f, indent=1)
